@@ -651,6 +651,13 @@ def proof_part(prop, res):
         res["assumptions"][m] = {k: (v or "Closed under the global context") for k, v in asm.items()}
     # tie (g): the current source of each container the property covers, translated and proved equal to its literal machine
     if prop not in ("C06", "C07"):
+        oks, ds = gen_check.shared_headers(REPO)
+        res["obligations"] += 1
+        res["extra"]["allow_hpp"] = ds
+        if oks:
+            res["discharged"] += 1
+        else:
+            res["broken"].append(dict(what="allow.hpp is no longer what the translator's rule table assumes", detail=ds))
         for ki in PROP_KINDS[prop]:
             kd = KINDS[ki]
             if kd not in gen_check.BRIDGES:
